@@ -8,12 +8,15 @@ From Coq Require Import Lia.
 (* the three creation counters: places, transitions, API records *)
 (* the source position of a statement occurrence: task, path of the enclosing block, index in
    that block (PetriNetGenerator names a counting loop by it) *)
-Record sinfo := mksi { s_tn : name; s_pre : list nat; s_idx : nat }.
+(* [s_il]: the occurrence stands inside a loop (of its task instance or of a caller): the flag
+   [in_loop] that the generator hands down and stores in the API objects *)
+Record sinfo := mksi { s_tn : name; s_pre : list nat; s_idx : nat; s_il : bool }.
 Definition s_path (k : sinfo) : list nat := s_pre k ++ [s_idx k].
-Definition si_next (k : sinfo) : sinfo := mksi (s_tn k) (s_pre k) (S (s_idx k)).
-Definition si_sub (k : sinfo) : sinfo := mksi (s_tn k) (s_path k) 0.
-Definition si_sub2 (b : nat) (k : sinfo) : sinfo := mksi (s_tn k) (s_path k ++ [b]) 0.
-Definition si_task (t : name) : sinfo := mksi t [] 0.
+Definition si_next (k : sinfo) : sinfo := mksi (s_tn k) (s_pre k) (S (s_idx k)) (s_il k).
+Definition si_sub (k : sinfo) : sinfo := mksi (s_tn k) (s_path k) 0 (s_il k).
+Definition si_loop (k : sinfo) : sinfo := mksi (s_tn k) (s_path k) 0 true.
+Definition si_sub2 (b : nat) (k : sinfo) : sinfo := mksi (s_tn k) (s_path k ++ [b]) 0 (s_il k).
+Definition si_task (t : name) (il : bool) : sinfo := mksi t [] 0 il.
 Record pos := mkpos { pp : nat; pt : nat; pa : nat; psi : sinfo }.
 Definition pkey (p : pos) : site := {| st_task := s_tn (psi p); st_path := s_path (psi p) |}.
 
@@ -133,14 +136,14 @@ Definition cat_of {A} (f : xstmt -> pos -> list A) : list xstmt -> pos -> list A
     | b :: r => f b q ++ go r (adv b q)
     end.
 
-Definition body_pos (t : name) (p : pos) : pos := mkpos (pp p) (pt p) (S (pa p)) (si_task t).
+Definition body_pos (t : name) (p : pos) : pos := mkpos (pp p) (pt p) (S (pa p)) (si_task t (s_il (psi p))).
 Definition par_pos (p : pos) : pos := mkpos (S (pp p)) (S (pt p)) (pa p) (si_sub (psi p)).
 (* Condition: places passed, failed, expr, finished = pp .. pp+3; transitions first-passed,
    first-failed, second-passed = pt .. pt+2; then the Passed block, the second-failed
    transition, the Failed block *)
 Definition cond_p (p : pos) : pos := mkpos (pp p + 4) (pt p + 3) (pa p) (si_sub2 0 (psi p)).
 (* the body of a loop (same offsets) *)
-Definition loop_p (p : pos) : pos := mkpos (pp p + 4) (pt p + 3) (pa p) (si_sub (psi p)).
+Definition loop_p (p : pos) : pos := mkpos (pp p + 4) (pt p + 3) (pa p) (si_loop (psi p)).
 Definition cond_f (P : list xstmt) (p : pos) : pos :=
   mkpos (pp p + 4 + nplaces_l P) (pt p + 4 + ntrans_b P) (pa p + napis_l P) (si_sub2 1 (psi p)).
 Definition cond_sf (P : list xstmt) (p : pos) : nat := pt p + 3 + ntrans_b P.
@@ -250,17 +253,22 @@ Definition wired_list (W : xstmt -> pos -> nat -> list cb -> Prop) (ctx : nat)
     | b :: r => W b q ctx [] /\ go r (adv b q)
     end.
 
+(* the counting variable that the source program binds at a site (NetModel.loop_var of the
+   program; kept abstract here) *)
+Class LoopVars := loop_var_of : site -> option name.
+
 Section Wired.
+  Context `{LV : LoopVars}.
   Variable N : NS.
   Fixpoint wired (s : xstmt) (p : pos) (ctx : nat) (xcbs : list cb) {struct s} : Prop :=
     match s with
     | XService n at_ ins =>
       preN N (pt p) = [pp p; pp p + 1] /\ postN N (pt p) = [pp p + 2] /\
       cbsN N (pt p) = CbSF (pa p) :: xcbs /\
-      (exists il, nth_error (ns_apis N) (pa p) = Some (svc_api il n at_ ins ctx (pa p))) /\
+      nth_error (ns_apis N) (pa p) = Some (svc_api (s_il (psi p)) n at_ ins ctx (pa p)) /\
       dict_get ident_eqb (IUuid (pa p)) (ns_place_dict N) = Some (pp p + 1)
     | XCall t at_ ins body =>
-      (exists il, nth_error (ns_apis N) (pa p) = Some (call_api il t at_ ins ctx (pa p))) /\
+      nth_error (ns_apis N) (pa p) = Some (call_api (s_il (psi p)) t at_ ins ctx (pa p)) /\
       wired_block wired N (pa p) (CbTF (pa p) :: xcbs) body (body_pos t p)
     | XParallel bs =>
       preN N (pt p) = cat_of (fun b q => [xplace b q]) bs (par_pos p) /\
@@ -299,11 +307,14 @@ Section Wired.
       cbsN N (pt p) = startcbs_b B (loop_p p) ctx /\
       preN N (pt p + 1) = [pp p; pp p + 2] /\ postN N (pt p + 1) = [pp p + 3] /\ cbsN N (pt p + 1) = xcbs /\
       preN N (pt p + 2) = [xplace_b B (loop_p p)] /\ postN N (pt p + 2) = [pp p] /\
-      cbsN N (pt p + 2) = [CbCount (pkey p) lim (pp p + 1) (pp p + 2) ctx] /\
+      (cbsN N (pt p + 2) = [CbCount (pkey p) lim (pp p + 1) (pp p + 2) ctx] /\ loop_var_of (pkey p) = Some v) /\
       wired_block wired N ctx [] B (loop_p p)
     | _ => False
     end.
 End Wired.
+
+Section WithLV.
+Context `{LV : LoopVars}.
 
 (* ---- unfolding equations for the list helpers ---- *)
 Lemma last_of_one : forall A (f : xstmt -> pos -> A) d s p, last_of f d [s] p = f s p.
@@ -806,3 +817,59 @@ Proof.
       * rewrite B3, W6, hits_true; [reflexivity|]. rewrite Hes. left. reflexivity.
       * intros e He. rewrite Hes in He. cbn [loop_p pt]. destruct He as [<-|[]]; lia.
 Qed.
+
+(* ---- the counting loops of a component stand at sites that bind their counting variables:
+        [keys_ok x tn pre i] for the component x at index i of the block (tn, pre) ---- *)
+Definition key_ok (tn : name) (path : list nat) (v : name) : Prop :=
+  loop_var_of {| st_task := tn; st_path := path |} = Some v.
+
+Fixpoint keys_ok (x : xstmt) (tn : name) (pre : list nat) (i : nat) {struct x} : Prop :=
+  match x with
+  | XCall t _ _ body =>
+    (fix blk (l : list xstmt) (j : nat) : Prop :=
+       match l with [] => True | y :: r => keys_ok y t [] j /\ blk r (S j) end) body 0
+  | XParallel bs =>
+    (fix blk (l : list xstmt) (j : nat) : Prop :=
+       match l with [] => True | y :: r => keys_ok y tn (pre ++ [i]) j /\ blk r (S j) end) bs 0
+  | XCond _ P F =>
+    (fix blk (l : list xstmt) (j : nat) : Prop :=
+       match l with [] => True | y :: r => keys_ok y tn ((pre ++ [i]) ++ [0]) j /\ blk r (S j) end) P 0 /\
+    (fix blk (l : list xstmt) (j : nat) : Prop :=
+       match l with [] => True | y :: r => keys_ok y tn ((pre ++ [i]) ++ [1]) j /\ blk r (S j) end) F 0
+  | XWhile _ B =>
+    (fix blk (l : list xstmt) (j : nat) : Prop :=
+       match l with [] => True | y :: r => keys_ok y tn (pre ++ [i]) j /\ blk r (S j) end) B 0
+  | XCount v _ B =>
+    key_ok tn (pre ++ [i]) v /\
+    (fix blk (l : list xstmt) (j : nat) : Prop :=
+       match l with [] => True | y :: r => keys_ok y tn (pre ++ [i]) j /\ blk r (S j) end) B 0
+  | _ => True
+  end.
+Fixpoint keys_block (tn : name) (pre : list nat) (l : list xstmt) (i : nat) : Prop :=
+  match l with [] => True | y :: r => keys_ok y tn pre i /\ keys_block tn pre r (S i) end.
+
+Lemma keys_ok_call : forall t a ins body tn pre i, keys_ok (XCall t a ins body) tn pre i = keys_block t [] body 0.
+Proof. intros. cbn [keys_ok]. generalize 0. induction body as [|y r IH]; intro j; [reflexivity|]. cbn [keys_block]. rewrite <- IH. reflexivity. Qed.
+Lemma keys_ok_par : forall bs tn pre i, keys_ok (XParallel bs) tn pre i = keys_block tn (pre ++ [i]) bs 0.
+Proof. intros. cbn [keys_ok]. generalize 0. induction bs as [|y r IH]; intro j; [reflexivity|]. cbn [keys_block]. rewrite <- IH. reflexivity. Qed.
+Lemma keys_ok_cond : forall e P F tn pre i,
+    keys_ok (XCond e P F) tn pre i = (keys_block tn ((pre ++ [i]) ++ [0]) P 0 /\ keys_block tn ((pre ++ [i]) ++ [1]) F 0).
+Proof.
+  intros. cbn [keys_ok]. generalize ((pre ++ [i]) ++ [0]) ((pre ++ [i]) ++ [1]). intros q0 q1. f_equal.
+  - generalize 0. induction P as [|y r IH]; intro j; [reflexivity|]. cbn [keys_block]. rewrite <- IH. reflexivity.
+  - generalize 0. induction F as [|y r IH]; intro j; [reflexivity|]. cbn [keys_block]. rewrite <- IH. reflexivity.
+Qed.
+Lemma keys_ok_while : forall e B tn pre i, keys_ok (XWhile e B) tn pre i = keys_block tn (pre ++ [i]) B 0.
+Proof. intros. cbn [keys_ok]. generalize 0. induction B as [|y r IH]; intro j; [reflexivity|]. cbn [keys_block]. rewrite <- IH. reflexivity. Qed.
+Lemma keys_ok_count : forall v l B tn pre i,
+    keys_ok (XCount v l B) tn pre i = (key_ok tn (pre ++ [i]) v /\ keys_block tn (pre ++ [i]) B 0).
+Proof. intros. cbn [keys_ok]. f_equal. generalize 0. induction B as [|y r IH]; intro j; [reflexivity|]. cbn [keys_block]. rewrite <- IH. reflexivity. Qed.
+Lemma keys_block_nth : forall tn pre l i j s, keys_block tn pre l i -> nth_error l j = Some s -> keys_ok s tn pre (i + j).
+Proof.
+  intros tn pre. induction l as [|y r IH]; intros i j s H Hn; [destruct j; discriminate Hn|].
+  cbn [keys_block] in H. destruct H as [H1 H2]. destruct j as [|j]; cbn [nth_error] in Hn.
+  - inversion Hn; subst. rewrite Nat.add_0_r. exact H1.
+  - replace (i + S j) with (S i + j) by lia. apply (IH (S i) j s H2 Hn).
+Qed.
+
+End WithLV.
